@@ -173,7 +173,7 @@ Qed.
 (* e was raised while file f itself was being processed: by parsimonious (syntax), or by its own statements / flush /
    finalize (the run of its lines ended with a local error e0); the reported error is e0 with f's path *)
 Inductive origin (fs : list file) (e : eloc) : Prop :=
-| origin_syntax : forall f n, In f fs -> f_syntax T V f = Some n -> e = ELoc (Some (f_path T V f)) (Some n) -> origin fs e
+| origin_syntax : forall f n, In f fs -> f_syntax T V f = Some n -> e = ELoc (Some (f_path T V f)) n -> origin fs e
 | origin_local : forall f rd em w e0 w', In f fs -> f_syntax T V f = None ->
     run T V Z world rd em (f_lines T V f) w = Err e0 w' -> e_path e0 = None ->
     e = ELoc (Some (f_path T V f)) (e_line e0) -> origin fs e.
